@@ -10,7 +10,7 @@
    that it will receive, in order, is the member list of k.  It is preserved by every delivery
    of the FIRST queued publication, and by every step that starts from an empty bus. *)
 From Coq Require Import List NArith ZArith Bool Lia Permutation.
-From Verif Require Import model.Hub corr.Hub_preds proofs.Hub_basics proofs.Hub_wf proofs.Hub_pending.
+From Verif Require Import model.Hub corr.Hub_preds proofs.Hub_basics proofs.Hub_wf proofs.Hub_pending proofs.Hub_route.
 Import ListNotations.
 Open Scope N_scope.
 
@@ -2325,4 +2325,316 @@ Proof.
       match goal with |- context [close_conn ?hh c] => pose proof (Jg_close_conn none2 no1 hh g c W1 J1) as J2; destruct (close_conn hh c) as [h2 o2] end.
       cbn [fst snd] in *. rewrite gouts_cons. exact J2.
     + now apply Jg_close_conn.
+Qed.
+
+(* ------------------------------------------------------------------ delivering the first queued publication *)
+Lemma Jh_pop h g p rest : h_bus h = p :: rest -> Jh h g -> Jh (set_bus h rest) g.
+Proof.
+  intros Hb H. constructor; try apply H.
+  - intros q Hq. apply (j_times _ _ H). rewrite Hb. now right.
+  - intros q Hq. apply (j_shape _ _ H). rewrite Hb. now right.
+  - intros q b r x i s Hq. apply (j_asj _ _ H). rewrite Hb. now right.
+Qed.
+
+Lemma Jg_pop_none xr xs h g p rest : h_bus h = p :: rest -> (forall sid k tj M, pub_op sid k tj M p = None) ->
+  Jg xr xs h g -> Jg xr xs (set_bus h rest) g.
+Proof.
+  intros Hb Hn [H V]. split; [eapply Jh_pop; eauto|]. intros x s Hs Hv Hx. specialize (V x s Hs Hv Hx). rewrite Hb in V.
+  cbn [h_bus set_bus]. unfold view_ok in *. destruct (s_room s) as [k|]; [|exact V].
+  destruct V as [V|(M & V0 & A & B & C & D)]; [now left|right]. exists M, V0. repeat split; auto.
+  intros z. specialize (D z). rewrite bus_ops_cons, Hn in D. exact D.
+Qed.
+
+(* the view and the seen list after one join / leave notice *)
+Definition seen_op (o : vop) (seen : list N) (z : N) : bool :=
+  match o with VAdd l => nmem z seen || nmem z l | VRem l => negb (nmem z l) && nmem z seen end.
+
+Lemma apply_view_op v m o k V : msg_op m = Some o -> v = Some (k, V) ->
+  exists V', apply_view v m = Some (k, V') /\ forall z, nmem z V' = vop_after o (nmem z V) z.
+Proof.
+  intros Hm ->. destruct m; try discriminate Hm; injection Hm as <-; cbn [apply_view].
+  - eexists. split; [reflexivity|]. intros z. cbn [vop_after]. apply nmem_fold_nadd.
+  - eexists. split; [reflexivity|]. intros z. cbn [vop_after]. apply nmem_fold_nrem.
+Qed.
+
+(* one session receives the join / leave notice of the first publication *)
+Lemma deliver_event xr h g x s m o k p rest :
+  Jh h g -> get_sess h x = Some s -> is_virtual (s_kind s) = false -> s_room s = Some k -> msg_op m = Some o ->
+  (forall M, pub_op x k (s_join s) M p = Some o) ->
+  view_ok xr (mem_of h) (g_view g x) (p :: rest) x s ->
+  let r := deliver_to_session h x m in
+  Jh (fst r) (gouts g (snd r)) /\
+  (exists s', get_sess (fst r) x = Some s' /\ vcore s' = vcore (sess_seen s (s_seen s')) /\
+              view_ok xr (mem_of (fst r)) (g_view (gouts g (snd r)) x) rest x s') /\
+  (forall y, y <> x -> get_sess (fst r) y = get_sess h y /\ g_view (gouts g (snd r)) y = g_view g y) /\
+  (forall k', mem_of (fst r) k' = mem_of h k') /\ h_bus (fst r) = h_bus h /\
+  map fst (h_sessions (fst r)) = map fst (h_sessions h).
+Proof.
+  intros H Hs Hv Hk Hm Hop V. cbv zeta. rewrite (deliver_to_session_eq h x m s Hs).
+  assert (Hle : x <= h_nextsid h) by (eapply (j_live _ _ H); eauto).
+  (* the new seen list *)
+  set (sa := seen_after s m).
+  assert (Hsa : vcore sa = vcore (sess_seen s (s_seen sa)) /\ s_pending sa = s_pending s /\
+                forall z, nmem z (s_seen sa) = seen_op o (s_seen s) z).
+  { unfold sa. destruct m; try discriminate Hm; injection Hm as <-; cbn [seen_after].
+    - destruct (filter_seen (s_seen s) l) as [keep seen'] eqn:Hf. destruct (filter_seen_spec l _ _ _ Hf) as [_ B].
+      cbn [snd]. split; [reflexivity|]. split; [reflexivity|]. intros z. cbn [seen_op s_seen sess_seen upd_sess]. apply B.
+    - split; [reflexivity|]. split; [reflexivity|]. intros z. cbn [seen_op s_seen sess_seen upd_sess]. apply nmem_fold_nrem. }
+  destruct Hsa as (Hsa1 & Hsa2 & Hsa3).
+  pose proof (vcore_eq _ _ Hsa1) as (Sk & Sb & Sr & Sc & _ & Sj). cbn in Sk, Sb, Sr, Sc, Sj.
+  (* what a state must satisfy to conclude *)
+  assert (T : forall s7 o2,
+    vcore s7 = vcore sa -> (s_conn s7 <> None -> s_pending s7 = []) -> (forall mm, In mm (s_pending s7) -> no_hello mm = true) ->
+    (forall c0, g_bind (gouts g o2) c0 = g_bind g c0) -> (forall y, y <> x -> g_view (gouts g o2) y = g_view g y) ->
+    (forall kk V, replay (s_pending s) (g_view g x) = Some (kk, V) -> (forall z, nmem z (s_seen s) = true -> nmem z V = true) ->
+       exists V', replay (s_pending s7) (g_view (gouts g o2) x) = Some (kk, V') /\ forall z, nmem z V' = vop_after o (nmem z V) z) ->
+    Jh (fst (put_sess h x s7, o2)) (gouts g (snd (put_sess h x s7, o2))) /\
+    (exists s', get_sess (fst (put_sess h x s7, o2)) x = Some s' /\ vcore s' = vcore (sess_seen s (s_seen s')) /\
+                view_ok xr (mem_of (fst (put_sess h x s7, o2))) (g_view (gouts g (snd (put_sess h x s7, o2))) x) rest x s') /\
+    (forall y, y <> x -> get_sess (fst (put_sess h x s7, o2)) y = get_sess h y /\ g_view (gouts g (snd (put_sess h x s7, o2))) y = g_view g y) /\
+    (forall k', mem_of (fst (put_sess h x s7, o2)) k' = mem_of h k') /\ h_bus (fst (put_sess h x s7, o2)) = h_bus h /\
+    map fst (h_sessions (fst (put_sess h x s7, o2))) = map fst (h_sessions h)).
+  { intros s7 o2 F1 F2 F3 Gb Gv Gr. cbn [fst snd].
+    pose proof (vcore_eq _ _ F1) as (Tk & Tb & Tr & Tc & Ts & Tj).
+    split; [|split; [|split; [|split; [|split]]]].
+    - apply (Jh_gview _ g _ x); [|exact Gb|exact Gv|exact Hle]. apply (Jh_put h g x s s7 H Hs).
+      + intros q b r i Hq Hsu Hmq. rewrite Tr, Sr. eapply (j_asj _ _ H); eauto.
+      + rewrite Tj, Sj. eapply (j_join _ _ H); eauto.
+      + intros k' Hk'. rewrite Tb, Sb. eapply (j_backend _ _ H); eauto. congruence.
+      + exact F2.
+      + exact F3.
+      + intros Hvv. rewrite Tc, Sc. apply (j_vconn _ _ H x s Hs). congruence.
+      + intros c0. congruence.
+    - exists s7. split; [apply get_put_same|]. split.
+      { rewrite F1, Hsa1. unfold vcore. cbn. now rewrite Ts. }
+      unfold view_ok in *. rewrite Tr, Sr, Hk in *. destruct V as [V|(M & V0 & A & B & C & D)]; [now left|right].
+      destruct (Gr _ _ B C) as (V' & HV' & HV'z). exists M, V'. split; [exact A|]. split; [exact HV'|]. split.
+      + intros z. rewrite Ts, Hsa3, HV'z. destruct o; cbn [seen_op vop_after].
+        * intros Hz. apply orb_true_iff in Hz as [Hz|Hz]; [rewrite (C z Hz); apply orb_true_r|rewrite Hz; reflexivity].
+        * intros Hz. apply andb_true_iff in Hz as [Hz1 Hz2]. now rewrite Hz1, (C z Hz2).
+      + intros z. rewrite Tj, Sj, HV'z. specialize (D z). rewrite bus_ops_cons, (Hop M) in D. exact D.
+    - intros y Hy. split; [now apply get_put_other|now apply Gv].
+    - intros k'. reflexivity.
+    - reflexivity.
+    - eapply keys_put_in; eauto. }
+  (* a notice that is filtered away completely *)
+  destruct (filtered s m) as [mm|] eqn:Hfm.
+  2:{ apply (T sa []); auto.
+      - intros Hn. rewrite Hsa2. apply (j_pc _ _ H x s Hs). congruence.
+      - intros mm. rewrite Hsa2. apply (j_nohello _ _ H x s mm Hs).
+      - intros kk V1 HV1 Hseen. exists V1. rewrite Hsa2. split; [exact HV1|]. intros z.
+        destruct m; try discriminate Hm; injection Hm as <-; cbn [filtered] in Hfm; [|discriminate].
+        destruct (filter_seen (s_seen s) l) as [keep seen'] eqn:Hf. destruct (filter_seen_spec l _ _ _ Hf) as [A _]. cbn [fst] in Hfm.
+        destruct keep; [|discriminate]. specialize (A z). cbn in A. cbn [vop_after].
+        destruct (nmem z (map fst l)) eqn:E1; [|reflexivity]. destruct (nmem z (s_seen s)) eqn:E2; [|discriminate].
+        now rewrite (Hseen z E2). }
+  (* the message that is written / queued *)
+  assert (Hmm : no_hello mm = true /\ is_chat_refresh mm = false /\
+                forall kk V, (forall z, nmem z (s_seen s) = true -> nmem z V = true) ->
+                  exists V', apply_view (Some (kk, V)) mm = Some (kk, V') /\ forall z, nmem z V' = vop_after o (nmem z V) z).
+  { destruct m; try discriminate Hm; injection Hm as <-; cbn [filtered] in Hfm.
+    - destruct (filter_seen (s_seen s) l) as [keep seen'] eqn:Hf. destruct (filter_seen_spec l _ _ _ Hf) as [A _]. cbn [fst] in Hfm.
+      destruct keep as [|e keep]; [discriminate|]. injection Hfm as <-. split; [reflexivity|]. split; [reflexivity|].
+      intros kk V1 Hseen. cbn [apply_view]. eexists. split; [reflexivity|]. intros z. rewrite nmem_fold_nadd, A. cbn [vop_after].
+      destruct (nmem z (map fst l)) eqn:E1; [|reflexivity]. destruct (nmem z (s_seen s)) eqn:E2; [|reflexivity].
+      now rewrite (Hseen z E2).
+    - injection Hfm as <-. split; [reflexivity|]. split; [reflexivity|]. intros kk V1 _. cbn [apply_view]. eexists. split; [reflexivity|].
+      intros z. apply nmem_fold_nrem. }
+  destruct Hmm as (Hnh & Hcr & Hap).
+  destruct (s_conn s) as [c0|] eqn:Hc.
+  - assert (Hp0 : s_pending s = []) by (apply (j_pc _ _ H x s Hs); congruence).
+    assert (Hb0 : g_bind g c0 = Some x) by (apply (j_bind _ _ H x s c0 Hs Hc)).
+    apply (T sa [ToConn c0 mm]); auto.
+    + intros _. now rewrite Hsa2.
+    + intros m0. rewrite Hsa2, Hp0. intros [].
+    + intros c1. rewrite gouts_cons, gouts_nil, (gout_msg g c0 mm x Hnh Hb0). reflexivity.
+    + intros y Hy. rewrite gouts_cons, gouts_nil, (gout_msg g c0 mm x Hnh Hb0). cbn [g_view]. destruct (N.eqb_spec y x); [contradiction|reflexivity].
+    + intros kk V1 HV1 Hseen. rewrite gouts_cons, gouts_nil, (gout_msg g c0 mm x Hnh Hb0). cbn [g_view]. rewrite N.eqb_refl, Hsa2, Hp0.
+      rewrite Hp0 in HV1. cbn [replay fold_left] in *. rewrite HV1. now apply Hap.
+  - apply (T (sess_pending sa (enqueue (s_pending s) mm)) []); auto.
+    + change (s_conn (sess_pending sa (enqueue (s_pending s) mm))) with (s_conn sa). rewrite Sc. intros Hn. contradiction.
+    + intros m0 Hm0. change (In m0 (enqueue (s_pending s) mm)) in Hm0. rewrite enqueue_plain in Hm0 by exact Hcr.
+      apply in_app_iff in Hm0 as [Hm0|[<-|[]]]; [|exact Hnh]. eapply (j_nohello _ _ H x s); eauto.
+    + intros kk V1 HV1 Hseen. change (s_pending (sess_pending sa (enqueue (s_pending s) mm))) with (enqueue (s_pending s) mm).
+      rewrite enqueue_plain by exact Hcr. rewrite replay_app. cbn [gouts fold_left]. rewrite HV1. cbn [replay fold_left]. now apply Hap.
+Qed.
+
+Lemma In_aget_nodup {V} (l : alist V) k v : NoDup (map fst l) -> In (k, v) l -> aget l k = Some v.
+Proof.
+  induction l as [|[k' v'] r IH]; cbn; [intros _ []|]. intros Hn [E|Hin].
+  - injection E as -> ->. now rewrite N.eqb_refl.
+  - inversion Hn as [|a b Hk' Hr]; subst. destruct (N.eqb_spec k k') as [->|]; [|auto].
+    exfalso. apply Hk'. apply in_map_iff. exists (k', v). auto.
+Qed.
+Lemma nodup_map_filter_obs {A B} (gf : A -> B) (f : A -> bool) (l : list A) : NoDup (map gf l) -> NoDup (map gf (filter f l)).
+Proof.
+  induction l as [|x l IH]; cbn; intros H; [constructor|]. inversion H as [|? ? Hx Hl]; subst.
+  destruct (f x); cbn; [constructor|]; auto.
+  intros Hin. apply Hx. apply in_map_iff in Hin as [y [Hy Hin]]. apply filter_In in Hin as [Hin _]. apply in_map_iff. eauto.
+Qed.
+
+Lemma view_ok_pop_none xr mo v p rest x s : (forall k M, s_room s = Some k -> pub_op x k (s_join s) M p = None) ->
+  view_ok xr mo v (p :: rest) x s -> view_ok xr mo v rest x s.
+Proof.
+  intros Hn V. unfold view_ok in *. destruct (s_room s) as [k|]; [|exact V].
+  destruct V as [V|(M & V0 & A & B & C & D)]; [now left|right]. exists M, V0. repeat split; auto.
+  intros z. specialize (D z). rewrite bus_ops_cons, (Hn k M eq_refl) in D. exact D.
+Qed.
+
+Lemma no_closing_filtered s m mm h c : msg_op m <> None -> filtered s m = Some mm -> is_closing h c mm = false.
+Proof.
+  intros Hm Hf. destruct m; try (exfalso; apply Hm; reflexivity); cbn [filtered] in Hf.
+  - destruct (fst (filter_seen (s_seen s) l)); [discriminate|]. injection Hf as <-. reflexivity.
+  - injection Hf as <-. reflexivity.
+Qed.
+
+Lemma send_event_eq h x s m : get_sess h x = Some s -> is_virtual (s_kind s) = false -> msg_op m <> None ->
+  send_session h x m = deliver_to_session h x m.
+Proof.
+  intros Hs Hv Hm. rewrite send_session_eq, (target_nonvirtual h x s Hs Hv), (deliver_to_session_eq h x m s Hs).
+  destruct (filtered s m) as [mm|] eqn:Hf; [|reflexivity]. destruct (s_conn s) as [c|]; [|reflexivity].
+  now rewrite (no_closing_filtered s m mm _ c Hm Hf).
+Qed.
+
+(* what happens to one addressed session *)
+Definition addressed (p : pub) (x : N) (s : session) : Prop :=
+  (exists b r, p_subj p = SubjRoom b r /\ s_room s = Some (b, r)) \/ p_subj p = SubjSession x.
+
+Lemma recv_room_event xr h g x s p rest m o :
+  p_msg p = ARoomEvent m -> msg_op m = Some o -> Jh h g -> get_sess h x = Some s -> is_virtual (s_kind s) = false ->
+  addressed p x s -> view_ok xr (mem_of h) (g_view g x) (p :: rest) x s ->
+  let r := recv_event h x m 0 false true (p_time p) in
+  Jh (fst r) (gouts g (snd r)) /\
+  (exists s', get_sess (fst r) x = Some s' /\ vcore s' = vcore (sess_seen s (s_seen s')) /\
+              view_ok xr (mem_of (fst r)) (g_view (gouts g (snd r)) x) rest x s') /\
+  (forall y, y <> x -> get_sess (fst r) y = get_sess h y /\ g_view (gouts g (snd r)) y = g_view g y) /\
+  (forall k', mem_of (fst r) k' = mem_of h k') /\ h_bus (fst r) = h_bus h /\
+  map fst (h_sessions (fst r)) = map fst (h_sessions h).
+Proof.
+  intros Hpm Hm H Hs Hv Hadd V. cbv zeta. unfold recv_event. rewrite Hs.
+  change (negb (N.eqb 0 0)) with false. rewrite andb_false_r. cbn [andb].
+  assert (Hstay : view_ok xr (mem_of h) (g_view g x) rest x s ->
+    Jh (fst (h, @nil out)) (gouts g (snd (h, @nil out))) /\
+    (exists s', get_sess (fst (h, @nil out)) x = Some s' /\ vcore s' = vcore (sess_seen s (s_seen s')) /\
+                view_ok xr (mem_of (fst (h, @nil out))) (g_view (gouts g (snd (h, @nil out))) x) rest x s') /\
+    (forall y, y <> x -> get_sess (fst (h, @nil out)) y = get_sess h y /\ g_view (gouts g (snd (h, @nil out))) y = g_view g y) /\
+    (forall k', mem_of (fst (h, @nil out)) k' = mem_of h k') /\ h_bus (fst (h, @nil out)) = h_bus h /\
+    map fst (h_sessions (fst (h, @nil out))) = map fst (h_sessions h)).
+  { intros V'. cbn [fst snd gouts fold_left]. split; [exact H|]. split; [exists s; repeat split; auto|]. repeat split; auto. }
+  destruct (s_room s) as [k|] eqn:Hk.
+  2:{ cbn [andb]. apply Hstay. unfold view_ok in *. rewrite Hk in *. exact V. }
+  cbn [andb].
+  assert (Hpo : forall M, pub_op x k (s_join s) M p = if negb (p_time p <? s_join s) then Some o else None).
+  { intros M. unfold pub_op. rewrite Hpm. destruct Hadd as [(b & r & Hsu & Hr)|Hsu]; rewrite Hsu.
+    - assert (Hkk : (b, r) = k) by congruence. rewrite Hkk, pair_eqb_refl. cbn [andb]. now rewrite Hm.
+    - rewrite N.eqb_refl. cbn [andb]. now rewrite Hm. }
+  destruct (p_time p <? s_join s) eqn:Ht; cbn [negb] in Hpo.
+  - apply Hstay. eapply view_ok_pop_none; [|exact V]. intros k' M Hk'. assert (k' = k) by congruence. subst k'. apply Hpo.
+  - rewrite (send_event_eq h x s m Hs Hv) by congruence. apply (deliver_event xr h g x s m o k p rest); auto.
+Qed.
+
+Lemma Jg_pop_sess xr xs h g p rest : h_bus h = p :: rest ->
+  (forall y s k M, get_sess h y = Some s -> is_virtual (s_kind s) = false -> s_room s = Some k -> pub_op y k (s_join s) M p = None) ->
+  Jg xr xs h g -> Jg xr xs (set_bus h rest) g.
+Proof.
+  intros Hb Hn [H V]. split; [eapply Jh_pop; eauto|]. intros x s Hs Hv Hx. specialize (V x s Hs Hv Hx). rewrite Hb in V.
+  cbn [h_bus set_bus]. eapply view_ok_pop_none; [|exact V]. intros k M Hk. eapply Hn; eauto.
+Qed.
+
+Definition roomev (b r : N) (m : smsg) (t : N) : hub -> N -> hub * list out := fun hh x => recv_event hh x m 0 false true t.
+
+Lemma fold_room_event p rest m o b r : p_msg p = ARoomEvent m -> msg_op m = Some o -> p_subj p = SubjRoom b r ->
+  forall L, NoDup L -> forall hh gg, Jh hh gg -> h_bus hh = rest ->
+  (forall y, In y L -> exists s, get_sess hh y = Some s /\ is_virtual (s_kind s) = false /\ s_room s = Some (b, r)) ->
+  (forall y s, get_sess hh y = Some s -> is_virtual (s_kind s) = false ->
+     (In y L -> view_ok none2 (mem_of hh) (g_view gg y) (p :: rest) y s) /\
+     (~ In y L -> view_ok none2 (mem_of hh) (g_view gg y) rest y s)) ->
+  let res := fold_sessions hh L (roomev b r m (p_time p)) in
+  Jh (fst res) (gouts gg (snd res)) /\ h_bus (fst res) = rest /\
+  forall y s, get_sess (fst res) y = Some s -> is_virtual (s_kind s) = false ->
+    view_ok none2 (mem_of (fst res)) (g_view (gouts gg (snd res)) y) rest y s.
+Proof.
+  intros Hpm Hm Hsu. induction L as [|x L IH]; intros Hnd hh gg H Hb HL HV; cbv zeta.
+  - cbn [fold_sessions fold_left fst snd gouts]. split; [exact H|]. split; [exact Hb|]. intros y s Hs Hv. now apply (HV y s Hs Hv).
+  - rewrite fold_sessions_cons. inversion Hnd as [|a l Hx HndL]; subst.
+    destruct (HL x (or_introl eq_refl)) as (s & Hs & Hv & Hr).
+    assert (Hadd : addressed p x s) by (left; exists b, r; auto).
+    destruct (recv_room_event none2 hh gg x s p (h_bus hh) m o Hpm Hm H Hs Hv Hadd (proj1 (HV x s Hs Hv) (or_introl eq_refl)))
+      as (H1 & (s' & Hs' & Hc' & V') & Hfr & Hmem & Hbus & _).
+    change (roomev b r m (p_time p) hh x) with (recv_event hh x m 0 false true (p_time p)).
+    destruct (recv_event hh x m 0 false true (p_time p)) as [h1 o1]. cbn [fst snd] in *.
+    specialize (IH HndL h1 (gouts gg o1) H1 Hbus).
+    assert (HL1 : forall y, In y L -> exists s0, get_sess h1 y = Some s0 /\ is_virtual (s_kind s0) = false /\ s_room s0 = Some (b, r)).
+    { intros y Hy. assert (y <> x) by (intros ->; contradiction). rewrite (proj1 (Hfr y H0)). apply HL. now right. }
+    assert (HV1 : forall y s0, get_sess h1 y = Some s0 -> is_virtual (s_kind s0) = false ->
+       (In y L -> view_ok none2 (mem_of h1) (g_view (gouts gg o1) y) (p :: h_bus hh) y s0) /\
+       (~ In y L -> view_ok none2 (mem_of h1) (g_view (gouts gg o1) y) (h_bus hh) y s0)).
+    { intros y s0 Hs0 Hv0. destruct (N.eqb_spec y x) as [->|Hne].
+      - assert (s0 = s') by congruence. subst s0. split; [intros Hin; contradiction|intros _; exact V'].
+      - destruct (Hfr y Hne) as [Hg1 Hg2]. rewrite Hg1 in Hs0. rewrite Hg2. destruct (HV y s0 Hs0 Hv0) as [A B]. split.
+        + intros Hin. eapply view_ok_ext; [exact Hmem|reflexivity|]. apply A. now right.
+        + intros Hin. eapply view_ok_ext; [exact Hmem|reflexivity|]. apply B. intros [E|E]; [congruence|contradiction]. }
+    specialize (IH HL1 HV1). cbv zeta in IH.
+    destruct (fold_sessions h1 L (roomev b r m (p_time p))) as [h2 o2]. cbn [fst snd] in *. rewrite gouts_app. exact IH.
+Qed.
+
+(* ---- room events ---- *)
+Lemma J_deliver_room_event h g p rest b r m : WF h -> J h g -> h_bus h = p :: rest -> p_subj p = SubjRoom b r -> p_msg p = ARoomEvent m ->
+  let res := fold_sessions (set_bus h rest) (room_listeners (set_bus h rest) (b, r)) (fun hh x => recv_event hh x m 0 false true (p_time p)) in
+  J (fst res) (gouts g (snd res)).
+Proof.
+  intros W [H V] Hb Hsu Hpm. cbv zeta.
+  assert (Hsh : exists o, msg_op m = Some o).
+  { pose proof (j_shape _ _ H p) as Hs. rewrite Hb in Hs. specialize (Hs (or_introl eq_refl)). unfold pub_shape in Hs. rewrite Hpm in Hs.
+    destruct m; try contradiction; eexists; reflexivity. }
+  destruct Hsh as [o Hm]. set (h0 := set_bus h rest).
+  assert (H0 : Jh h0 g) by (eapply Jh_pop; eauto).
+  assert (Hspec : forall y, In y (room_listeners h0 (b, r)) <-> exists s, get_sess h0 y = Some s /\ is_virtual (s_kind s) = false /\ s_room s = Some (b, r)).
+  { intros y. rewrite room_listener_spec. split; intros (s & A & B & C); exists s; (split; [|auto]).
+    - apply In_aget_nodup; [apply (j_keys _ _ H0)|exact A].
+    - now apply aget_In. }
+  pose proof (fold_room_event p rest m o b r Hpm Hm Hsu (room_listeners h0 (b, r))) as F.
+  assert (Hnd : NoDup (room_listeners h0 (b, r))) by (unfold room_listeners; apply nodup_map_filter_obs, (j_keys _ _ H0)).
+  specialize (F Hnd h0 g H0 eq_refl).
+  assert (HL : forall y, In y (room_listeners h0 (b, r)) -> exists s, get_sess h0 y = Some s /\ is_virtual (s_kind s) = false /\ s_room s = Some (b, r)) by (intros y; apply Hspec).
+  assert (HV : forall y s, get_sess h0 y = Some s -> is_virtual (s_kind s) = false ->
+     (In y (room_listeners h0 (b, r)) -> view_ok none2 (mem_of h0) (g_view g y) (p :: rest) y s) /\
+     (~ In y (room_listeners h0 (b, r)) -> view_ok none2 (mem_of h0) (g_view g y) rest y s)).
+  { intros y s Hs Hv. pose proof (V y s Hs Hv (fun F => F)) as Vy. rewrite Hb in Vy. split; [intros _; exact Vy|].
+    intros Hnin. eapply view_ok_pop_none; [|exact Vy]. intros k M Hk. unfold pub_op. rewrite Hsu, Hpm.
+    destruct (pair_eqb_spec (b, r) k) as [<-|]; [|reflexivity]. exfalso. apply Hnin. apply Hspec. eauto. }
+  specialize (F HL HV). cbv zeta in F. unfold roomev in F.
+  destruct (fold_sessions h0 (room_listeners h0 (b, r)) (fun hh x => recv_event hh x m 0 false true (p_time p))) as [h2 o2].
+  cbn [fst snd] in *. destruct F as (F1 & F2 & F3). split; [exact F1|]. rewrite F2. intros y s Hs Hv _. now apply F3.
+Qed.
+
+Lemma J_deliver_session_event h g p rest x m : J h g -> h_bus h = p :: rest -> p_subj p = SubjSession x -> p_msg p = ARoomEvent m ->
+  let res := match get_sess (set_bus h rest) x with
+             | Some s => if is_virtual (s_kind s) then (set_bus h rest, []) else recv_event (set_bus h rest) x m 0 false true (p_time p)
+             | None => (set_bus h rest, []) end in
+  J (fst res) (gouts g (snd res)).
+Proof.
+  intros [H V] Hb Hsu Hpm. cbv zeta.
+  assert (Hsh : exists o, msg_op m = Some o).
+  { pose proof (j_shape _ _ H p) as Hs. rewrite Hb in Hs. specialize (Hs (or_introl eq_refl)). unfold pub_shape in Hs. rewrite Hpm in Hs.
+    destruct m; try contradiction; eexists; reflexivity. }
+  destruct Hsh as [o Hm]. set (h0 := set_bus h rest).
+  assert (Hother : forall y s k M, get_sess h y = Some s -> y <> x -> pub_op y k (s_join s) M p = None).
+  { intros y s k M _ Hne. unfold pub_op. rewrite Hsu, Hpm. destruct (N.eqb_spec x y); [congruence|reflexivity]. }
+  assert (Hpop : (forall s, get_sess h x = Some s -> is_virtual (s_kind s) = true) -> J h0 g).
+  { intros Hx. apply (Jg_pop_sess none2 no1 h g p rest Hb); [|split; assumption].
+    intros y s k M Hs Hv _. apply (Hother y s k M Hs). intros ->. rewrite (Hx s Hs) in Hv. discriminate. }
+  change (get_sess h0 x) with (get_sess h x). destruct (get_sess h x) as [s|] eqn:Hs.
+  2:{ apply Hpop. intros s Hs'. discriminate. }
+  destruct (is_virtual (s_kind s)) eqn:Hv.
+  { apply Hpop. intros s' Hs'. congruence. }
+  assert (H0 : Jh h0 g) by (eapply Jh_pop; eauto).
+  pose proof (V x s Hs Hv (fun F => F)) as Vx. rewrite Hb in Vx.
+  destruct (recv_room_event none2 h0 g x s p rest m o Hpm Hm H0 Hs Hv (or_intror Hsu) Vx) as (H1 & (s' & Hs' & Hc' & V') & Hfr & Hmem & Hbus & _).
+  destruct (recv_event h0 x m 0 false true (p_time p)) as [h1 o1]. cbn [fst snd] in *. split; [exact H1|].
+  rewrite Hbus. intros y t Ht Hvt _. destruct (N.eqb_spec y x) as [->|Hne].
+  - assert (t = s') by congruence. subst t. exact V'.
+  - destruct (Hfr y Hne) as [Hg1 Hg2]. rewrite Hg1 in Ht. rewrite Hg2. eapply view_ok_ext; [exact Hmem|reflexivity|].
+    eapply view_ok_pop_none; [|pose proof (V y t Ht Hvt (fun F => F)) as Vy; rewrite Hb in Vy; exact Vy].
+    intros k M _. apply (Hother y t k M Ht Hne).
 Qed.
